@@ -14,8 +14,6 @@ NA = {
            "numerical trajectories; no clause of it is a shape of the code, and no sound static argument bounds it",
     "C08": "an invariance of numerical results across constraint subsets; the only structural part (the subset "
            "reaches the solver and invalidates cached results) is decided under C01/C04",
-    "C09": "arithmetic identities between output fields; deciding them statically means matching formula text, "
-           "which would fire on behaviour-preserving rewrites",
     "C17": "accuracy and monotonicity of numerical approximations of distribution functions; nothing structural to decide",
 }
 
@@ -85,6 +83,14 @@ TEXT = {
             "Adj, algorithm tables, DataParser automaton, escaping in the g3 writers, new/delete pairing; adjusted "
             "coordinates are not decided",
             "static analysis: exhaustiveness, typestate, automaton extraction, taint tracking"),
+    "C09": ("the homogeneity and selector clauses of 'reported statistics are consistent': with the a priori reference "
+            "deviation as a formal unit, every number reported by the XML, text, HTML, Octave and SQL writers and every "
+            "statistics accessor of LocalNetwork has the power of that unit the property demands (standard deviations, "
+            "covariances, confidence limits, ellipses: 0; v'Pv: 2; m0: 1), sums and comparisons are homogeneous, m_0() enters a "
+            "standard deviation exactly once, and the reference-deviation type selects Normal/Student and the value consistently; "
+            "which cofactor, which quantile and the arithmetic identities themselves are not decided",
+            "static analysis: dimensional (units-of-measure) abstract interpretation over the CFG with the reference deviation as the unit; "
+            "branch-polarity rule for the type selector"),
     "C20": ("index-space and sibling clauses of 'ill-posed networks are diagnosed identically': the index given to "
             "every lindep implementation is an unknown number in the space its store expects, every solver signals a "
             "bad regularisation, null_space handles exactly that exception; rank correctness is not decided",
